@@ -842,6 +842,60 @@ func c24ConfigGen() *rapid.Generator[acl.Config] {
 	})
 }
 
+// c24SplitDoc renders the logical ACL as a principals[] document in which the same
+// principal may appear in several entries (the list is JSON: names can repeat; "the rules
+// for its principal" are all of them): allows first and the denies in a later entry
+// ("revocation" appended at the end of the file), denies first, or one entry per rule, with
+// the later entries placed after the other principals. The rule SET per principal is
+// unchanged, so every verdict computed on the logical ACL holds for the document.
+func c24SplitDoc(t *rapid.T, cfg acl.Config) (acl.Config, string) {
+	doc := acl.Config{Enabled: cfg.Enabled, DefaultPolicy: cfg.DefaultPolicy}
+	var tail []acl.PrincipalRules
+	split := false
+	for _, p := range cfg.Principals {
+		if len(p.Allow)+len(p.Deny) < 2 && !(len(p.Deny) == 1) {
+			doc.Principals = append(doc.Principals, p)
+			continue
+		}
+		switch rapid.IntRange(0, 5).Draw(t, "split-"+p.Name) {
+		case 0, 1: // single entry
+			doc.Principals = append(doc.Principals, p)
+		case 2, 3: // grants first, the denies in a later entry
+			doc.Principals = append(doc.Principals, acl.PrincipalRules{Name: p.Name, Allow: p.Allow})
+			tail = append(tail, acl.PrincipalRules{Name: p.Name, Deny: p.Deny})
+			split = true
+		case 4: // denies first, the grants later
+			doc.Principals = append(doc.Principals, acl.PrincipalRules{Name: p.Name, Deny: p.Deny})
+			tail = append(tail, acl.PrincipalRules{Name: p.Name, Allow: p.Allow})
+			split = true
+		default: // one entry per rule
+			first := true
+			for _, a := range p.Allow {
+				e := acl.PrincipalRules{Name: p.Name, Allow: []acl.Rule{a}}
+				if first {
+					doc.Principals, first = append(doc.Principals, e), false
+				} else {
+					tail = append(tail, e)
+				}
+			}
+			for _, d := range p.Deny {
+				e := acl.PrincipalRules{Name: p.Name, Deny: []acl.Rule{d}}
+				if first {
+					doc.Principals, first = append(doc.Principals, e), false
+				} else {
+					tail = append(tail, e)
+				}
+			}
+			split = true
+		}
+	}
+	doc.Principals = append(doc.Principals, tail...)
+	if split {
+		return doc, "principal-listed-in-several-entries"
+	}
+	return doc, "one-entry-per-principal"
+}
+
 func c24Entry(cfg acl.Config, principal string) *acl.PrincipalRules {
 	for i := range cfg.Principals {
 		if cfg.Principals[i].Name == principal {
@@ -1559,7 +1613,11 @@ func TestVF_C24_Sequences(t *testing.T) {
 		}
 		defer w.close()
 		cfg := c24ConfigGen().Draw(rt, "acl")
-		w.h.authorizer = acl.NewAuthorizer(cfg)
+		// cfg is the LOGICAL ACL (one rule set per principal; all tiers are decided on it).
+		// The DOCUMENT installed in the broker may list a principal in several entries.
+		doc, shape := c24SplitDoc(rt, cfg)
+		st.Class("acl-document:" + shape)
+		w.h.authorizer = acl.NewAuthorizer(doc)
 		w.h.autoCreateTopics = rapid.IntRange(0, 2).Draw(rt, "autoCreate") > 0
 		adv := c24Advertised(w.h)
 		n := rapid.IntRange(2, 6).Draw(rt, "n")
@@ -1568,7 +1626,7 @@ func TestVF_C24_Sequences(t *testing.T) {
 			r := gen.Draw(rt, "req")
 			fail, tier, nt := c24Exec(w, cfg, r, st, known)
 			if fail != "" {
-				rt.Fatalf("%s\nrequest %+v (step %d, autoCreate=%v)\nacl %+v", fail, r, i, w.h.autoCreateTopics, cfg)
+				rt.Fatalf("%s\nrequest %+v (step %d, autoCreate=%v)\nacl (logical) %+v\nacl document (%s) %+v", fail, r, i, w.h.autoCreateTopics, cfg, shape, doc.Principals)
 			}
 			if tier != "" && nt {
 				e := c24Entry(cfg, map[bool]string{true: "anonymous", false: r.Principal}[r.Principal == ""])
